@@ -233,7 +233,8 @@ def run_lines(exe, lines, env=None, timeout=900, per_line_timeout=10, block_star
         data = ('\n'.join(prefix + lines[start:]) + '\n').encode()
         try:
             p = subprocess.run([exe], input=data, stdout=subprocess.PIPE, stderr=subprocess.PIPE,
-                               env={**os.environ, **ee}, timeout=(max(30, per_line_timeout * 3) if linebuf else timeout))
+                               env={**os.environ, **ee},
+                               timeout=(max(30, per_line_timeout * 3) if linebuf else min(timeout, 30 + 0.01 * (n - start))))
             outs = p.stdout.decode('utf-8', 'replace').split('\n')
             rc = p.returncode
             err = p.stderr.decode('utf-8', 'replace')
@@ -468,6 +469,10 @@ class Check:
             for b in self.broken: log('  broken: ' + b)
         for l in out_lines: print(l)
         cov = dict(self.cov)
+        if level == 'proof' and cov.get('obligations', 0) < 1:
+            # no property theorem registered yet for this check: do not claim a proof
+            level = 'other'
+            explanation = (explanation or '') + ' No property theorem is registered for this check yet; this run is the model/implementation correspondence and the property oracle only.'
         cov['distribution'] = self.dist
         if explanation: cov['explanation'] = explanation
         cov['known_findings_seen'] = {k: v[1] for k, v in self.known_hits.items()}
